@@ -707,3 +707,5 @@ MUTANTS = [
 
 RENAME_FUNCS = [(F, 'ABCTune._apply_broken_rhythm'), (F, 'parse_abc_tunebook'), (F, 'ABCTune.parse_key'), (F, 'ABCTune._parse_music_code'), (F, 'ABCTune._sig_to_accidentals'),
                 (F, 'ABCTune._parse_information_field'), (F, 'ABCTune.__init__')]
+
+EXPLANATION += (' Location-independent additions: RHYTHM/boundary (path-wise values of both note boundaries compared in rational normal form with the ABC rule), MODE/accidental-absolute (K: accidentals assigned, not incremented).')
